@@ -80,10 +80,17 @@ func probeDR(f []string) string {
 	br := bufio.NewReader(src)
 	dr := smtp.VNewDataReader(br, state, limited, n)
 	var parts []string
+	again := "-"
 	for _, k := range sizes {
 		buf := make([]byte, k)
 		m, err := dr.Read(buf)
 		parts = append(parts, hx(buf[:m])+"/"+resName(err, endErr))
+		if err == io.EOF {
+			// a backend that reads once more after the end of the message (a bufio wrapper, a second ReadAll): still end-of-file
+			buf := make([]byte, 4)
+			m, err := dr.Read(buf)
+			again = itoa(m) + "/" + resName(err, endErr)
+		}
 		if err != nil {
 			break
 		}
@@ -93,7 +100,7 @@ func probeDR(f []string) string {
 	if dr.Limited() {
 		nf = itoa(int(dr.N()))
 	}
-	return strings.Join(parts, ",") + "\t" + hx(rest) + "\t" + itoa(dr.State()) + "\t" + nf
+	return strings.Join(parts, ",") + "\t" + hx(rest) + "\t" + itoa(dr.State()) + "\t" + nf + "\tagain=" + again
 }
 
 func init() { probes["dr"] = probeDR }
